@@ -240,6 +240,18 @@ def alphabet(tier="quick", family="all"):
     return ops
 
 
+HELPERS = [("helper", "add_pfba"), ("helper", "fix_objective"), ("helper", "add_loopless"),
+           ("helper", "add_moma_linear"), ("helper", "add_room_linear"), ("helper", "add_lp_feasibility")]
+
+
+def reversible_alphabet(tier="quick"):
+    """Operations documented as reversible inside `with model:` (C03), plus analysis helpers."""
+    ops = [o for o in alphabet(tier) if o[0] not in NOT_REVERSIBLE and o[0] not in ("enter", "exit", "exit_exc")
+           and o != ("solver", "nope")]
+    ops += [("medium", (("EX_A", 3),)), ("medium", ())] if tier == "quick" else []
+    return ops + HELPERS
+
+
 NOT_REVERSIBLE = {"add_groups", "remove_groups", "set_id", "set_gene_id", "repair", "tolerance",
                   "h_copy", "h_deepcopy", "h_pickle", "gene_ko_direct"}
 
@@ -424,6 +436,30 @@ def apply_op(S, op):
         for rid, _ in op[1]:
             S.rxn(rid)
         m.medium = dict(op[1])
+    elif k == "helper":
+        if not S.stack:
+            raise Disabled("helpers are only applied inside a context")
+        name = op[1]
+        if name == "add_pfba":
+            from cobra.flux_analysis.parsimonious import add_pfba
+            add_pfba(m)
+        elif name == "fix_objective":
+            from cobra.util.solver import fix_objective_as_constraint
+            fix_objective_as_constraint(m)
+        elif name == "add_loopless":
+            from cobra.flux_analysis.loopless import add_loopless
+            add_loopless(m)
+        elif name == "add_moma_linear":
+            from cobra.flux_analysis.moma import add_moma
+            add_moma(m, linear=True)
+        elif name == "add_room_linear":
+            from cobra.flux_analysis.room import add_room
+            add_room(m, linear=True)
+        elif name == "add_lp_feasibility":
+            from cobra.util.solver import add_lp_feasibility
+            add_lp_feasibility(m)
+        else:
+            raise AssertionError(op)
     elif k == "h_copy":
         S.replace_model(m.copy())
     elif k == "h_deepcopy":
